@@ -50,6 +50,15 @@ func VerifC07WireRoundTrip() {
 	if e1 == nil {
 		return // an Encode that is a `return nil` placeholder: not a two-way type
 	}
+	// domain: a parameter list that names the same parameter ID twice is not a value (the message
+	// types keep parameters by ID, so the declared count and the content disagree); only the thorough
+	// tier's lengths hold two parameters
+	switch ti.Name {
+	case "P0x8103":
+		vrt_Assume(!c07DuplicateParamIDs(body, 1))
+	case "T0x0104":
+		vrt_Assume(!c07DuplicateParamIDs(body, 3))
+	}
 	w := ti.New(d)
 	err := w.Parse(c03Msg(ver, e1))
 	vrt_Assert(err == nil, "encoded value does not parse")
@@ -58,6 +67,23 @@ func VerifC07WireRoundTrip() {
 	vrt_Assert(vrt_BytesEq(e1, e2), "re-encoding differs")
 	vrt_Observe("encoded", e1)
 	vrt_Cover("round-trip", true)
+}
+
+// c07DuplicateParamIDs walks the parameter items (ID 4 bytes, length 1 byte, value) of a body that
+// the parser has accepted and tells whether an ID occurs twice.
+func c07DuplicateParamIDs(body []byte, off int) bool {
+	var ids []uint32
+	for i := off; i+5 <= len(body); {
+		id := uint32(body[i])<<24 | uint32(body[i+1])<<16 | uint32(body[i+2])<<8 | uint32(body[i+3])
+		for _, x := range ids {
+			if x == id {
+				return true
+			}
+		}
+		ids = append(ids, id)
+		i += 5 + int(body[i+4])
+	}
+	return false
 }
 
 // VerifC07Lists: values built directly (not from the wire) for the list-carrying platform types,
